@@ -1285,4 +1285,52 @@ Proof.
     + cbn [app]. rewrite <- ?app_assoc. reflexivity.
 Qed.
 
+Lemma preamble_rcds_eq w :
+  preamble_rcds w =
+    w_idle w ++ [begin_rcd (w_id w) (w_role w) (w_flags w) (w_beginpad w)]
+    ++ flat_map (piece_rcds (w_id w)) (w_pieces w)
+    ++ w_endjunk w ++ [params_rcd (w_id w) [] (w_endpad w)].
+Proof. reflexivity. Qed.
+
+Lemma preamble_run cap w pairs :
+  0 < cap -> preamble_ok w -> Forall pair_ok pairs -> nv_write_all pairs = Some (preamble_payload w) ->
+  Forall (pair_fits cap) pairs -> preamble_fits cap w -> len (preamble_payload w) <= USIZE_MAX ->
+  run (rec_fits cap) Header (preamble_rcds w)
+      (Done (mkReq (w_id w) (w_role w) (w_flags w) (env_log norm pairs))) (preamble_replies maxc w).
+Proof.
+  intros Hc (Hidle & Hid & Hrole & Hfl & Hbp & Hbpo & Hpcs & Hej & Hep & Hepo) Hpo HP Hpf (Hg1 & Hg2 & Hg3) HPl.
+  set (rq0 := mkReq (w_id w) (w_role w) (w_flags w) []).
+  assert (Ei0 : inner_at rq0 [] = mkInner rq0 []) by reflexivity.
+  assert (Eend : inner_at rq0 ([] ++ flat_map pbody (w_pieces w))
+                 = mkInner (mkReq (w_id w) (w_role w) (w_flags w) (env_log norm pairs)) []).
+  { cbn [app]. change (flat_map pbody (w_pieces w)) with (preamble_payload w). unfold inner_at. rewrite (nv_roundtrip pairs Hpo _ HP). cbn [fst snd].
+    unfold rq0. rewrite env_extend_log. reflexivity. }
+  assert (Hrun := run_pieces cap rq0 (preamble_payload w) pairs Hpo Hpf Hc HP HPl).
+  specialize (Hrun ltac:(cbn [rq0 r_id]; lia) (w_pieces w) [] [] Hpcs Hg2).
+  specialize (Hrun ltac:(rewrite app_nil_r; reflexivity)). rewrite Ei0, Eend in Hrun. cbn [rq0 r_id] in Hrun.
+  rewrite preamble_rcds_eq. eapply run_out.
+  - eapply run_app; [apply run_idle; eassumption|].
+    eapply run_app; [apply run_begin; eassumption|].
+    eapply run_app; [exact Hrun|].
+    eapply run_app.
+    { apply (run_junk' cap _ (w_id w)); [reflexivity|exact Hej|exact Hg3]. }
+    assert (Ed : Done (mkReq (w_id w) (w_role w) (w_flags w) (env_log norm pairs))
+                 = Done (ireq (mkInner (mkReq (w_id w) (w_role w) (w_flags w) (env_log norm pairs)) [])))
+      by reflexivity.
+    rewrite Ed. apply run_end'; [reflexivity|assumption|assumption|lia|exact Hc].
+  - unfold preamble_replies. cbn [app rq0 r_id]. rewrite !app_nil_r. reflexivity.
+Qed.
+
+Lemma len_pieces_le id pieces : len (flat_map pbody pieces) <= len (enc_rcds (flat_map (piece_rcds id) pieces)).
+Proof.
+  induction pieces as [|p t IH]; [cbn; lia|]. cbn [flat_map]. rewrite enc_rcds_app. unfold piece_rcds at 1.
+  rewrite enc_rcds_app. cbn [enc_rcds flat_map]. rewrite !len_app, len_enc_rcd. cbn [rbody]. lia.
+Qed.
+
+Lemma len_payload_le w : len (preamble_payload w) <= len (enc_rcds (preamble_rcds w)).
+Proof.
+  unfold preamble_payload, preamble_rcds. rewrite !enc_rcds_app, !len_app.
+  pose proof (len_pieces_le (w_id w) (w_pieces w)). lia.
+Qed.
+
 End Records.
